@@ -65,5 +65,33 @@ Theorem C03_every_decomposition_satisfies_the_lp :
 Proof. exact kfd_complete. Qed.
 Print Assumptions C03_every_decomposition_satisfies_the_lp.
 
-(* remaining gap, stated: completeness in the presence of subpath constraints (the R variables), and
-   monotonicity of feasibility in k (duplicate a path with weight 0) are not proved in Coq. *)
+(* (6) the LP for k is feasible exactly when a decomposition into k simple source-to-sink paths exists *)
+Theorem C03_k_model_feasible_iff_decomposition_exists : forall (I : kfd_inst) (rank : node -> nat) (Rm : nat),
+  PathEncProofs.wf_graph (p_graph (f_base I)) -> p_cons (f_base I) = [] -> p_allow_empty (f_base I) = false ->
+  (forall u v, In (u, v) (g_edges (p_graph (f_base I))) -> (rank u < rank v)%nat) -> (forall v, (rank v <= Rm)%nat) ->
+  ((exists a, sat a (encode_kfd I)) <-> (exists P w, decomposition I P w)).
+Proof. exact kfd_feasible_iff. Qed.
+Print Assumptions C03_k_model_feasible_iff_decomposition_exists.
+
+(* (7) THE PROPERTY, composed: with a solver that decides each generated LP exactly, the search returns the least
+   number of paths of any decomposition, provided that number lies in the searched range (which (3) and (4)
+   guarantee for the range [width lower bound, |E|] the code uses) *)
+Theorem C03_minflowdecomp_returns_the_minimum :
+  forall (inst : nat -> kfd_inst) (rank : node -> nat) (Rm : nat) (feasible : nat -> bool) (lb ub kopt : nat) (sts : list raw),
+  (forall k, p_k (f_base (inst k)) = k /\ PathEncProofs.wf_graph (p_graph (f_base (inst k))) /\ p_cons (f_base (inst k)) = [] /\
+             p_allow_empty (f_base (inst k)) = false /\
+             (forall u v, In (u, v) (g_edges (p_graph (f_base (inst k)))) -> (rank u < rank v)%nat)) ->
+  (forall v, (rank v <= Rm)%nat) ->
+  (forall k, feasible k = true <-> exists a, sat a (encode_kfd (inst k))) ->
+  (forall i, (i < ub - lb)%nat -> exists x, nth_error sts i = Some x /\
+             status_of x = if feasible (lb + i)%nat then Optimal else Infeasible) ->
+  (exists P w, decomposition (inst kopt) P w) ->
+  (forall k, (k < kopt)%nat -> ~ exists P w, decomposition (inst k) P w) ->
+  (lb <= kopt < ub)%nat ->
+  so_res (mpc_solve true lb ub sts) = Solved kopt.
+Proof. exact mfd_returns_minimum. Qed.
+Print Assumptions C03_minflowdecomp_returns_the_minimum.
+
+(* remaining gap, stated: the same characterisation in the presence of subpath constraints (R variables),
+   node-weighted input (goes through C11's expansion theorems) and the guessed-weights / greedy shortcuts
+   (covered by C13's search theorems and C17's peeling theorem respectively) are not composed into one statement. *)
